@@ -144,4 +144,52 @@ CLAIMED = {
                 "the fresh world runs.",
         "technique": "property-based testing: operation histories with a fresh-object differential oracle and before/after fingerprints",
     },
+    "C06": {
+        "text": "Hypothesis-generated metadata-only, point and model isotherms (rich recursive JSON metadata, all unit "
+                "configurations, 1-60 rows, guessed / all-ads / all-des / user branch marks in several encodings, extra numeric "
+                "and text columns, any row labelling incl. duplicates, all 16 models from instances and 11 by fitting): "
+                "from_json(to_json(x)) must equal x in id, ==, typed to_dict, labels, material, every column and dtype, model "
+                "name / parameters / ranges / rmse and pointwise predictions; re-export reproduces the document; string and "
+                "file targets agree.",
+        "note": "Floats finite (NaN only as rmse / ranges of unfitted models, compared NaN == NaN); integer width of the branch "
+                "column not compared; custom column keys are passed to the importer (the format does not record them).",
+        "technique": "property-based testing: round-trip oracle with typed field-by-field comparison and document fixed point",
+    },
+    "C08": {
+        "text": "Model-based histories of 2-25 operations (adsorbate / material / property type / isotherm to_db with and without "
+                "overwrite and auto-insert, *_delete_db, *_from_db with and without criteria) over 1-3 database files copied "
+                "from a template created from the current tree: after every step the outcome class equals a per-file "
+                "dictionary model that never looks at the in-memory registries, refused calls change nothing, other files are "
+                "untouched, an independent sqlite3 connection finds the predicted rows, no orphans and clean pragma checks, "
+                "and retrieved items equal the stored ones (isotherms by == and deletable through the retrieved object); "
+                "plus paging of bulk retrieval and the isotherm property-type table.",
+        "note": "Open findings KF-C08-3..7 (REAL affinity int->float and numeric text->float, 'TRUE'/'FALSE' text->bool, branch "
+                "marks not stored, retrieved material resolved from the in-memory list) are excluded by narrow predicates and "
+                "counted; the history continues behind them.",
+        "technique": "property-based testing: model-based stateful histories against a dictionary model + independent SQL inspection",
+    },
+    "C09": {
+        "text": "Fault enumeration: for hypothesis-generated scenarios (write operation x prior contents x item x registry state) "
+                "a dry run counts the N statements, then EVERY position k in [0..N] x {IntegrityError, InterfaceError, "
+                "OperationalError raised by statement k; process death (os._exit in a forked child) before / after statement k "
+                "and before / after commit} runs on a fresh copy of the pre-image; the file must equal exactly the pre-image or "
+                "the post-image (full rows), pragmas clean, everything stored before still retrievable, and the same operation "
+                "repeatable. A second check covers operations the store rejects by itself part-way.",
+        "note": "Faults act at Python-visible boundaries (a counting sqlite3 shim installed from the harness); atomicity of "
+                "SQLite's own commit under process death is assumed.",
+        "technique": "fault injection: exhaustive statement-position x fault-kind enumeration per generated scenario with a pre-/post-image oracle",
+        "category": "fault_enumeration",
+    },
+    "C15": {
+        "text": "Shipped sample isotherms and synthetic BET / Langmuir / mesoporous / microporous isotherms x every "
+                "characterisation entry point (area_BET, area_langmuir, t_plot, alpha_s, dr_plot, da_plot, psd_mesoporous, "
+                "psd_microporous, psd_dft, initial_henry_slope / virial, isosteric_enthalpy) x generated target representations "
+                "(10 pressure x 25 loading x 2 temperature, optionally through JSON) and scale factors: result(original) == "
+                "result(converted clone) field by field (windows equal), own-unit results change by the reference factor, "
+                "extensive results scale with c.",
+        "note": "Open findings KF-C15-1 (= KF-C14-3, alpha_s reference pressures) and KF-C15-2 (= KF-C19-2, isosteric enthalpy on "
+                "temperature-dependent loading bases) excluded by narrow predicates; material representation untouched; "
+                "limits off data points.",
+        "technique": "property-based testing: metamorphic unit-conversion / scaling relations over all characterisation entry points",
+    },
 }
